@@ -62,17 +62,30 @@ class _GraphIO(collections.UserList["_core.Value"]):
         super().append(item)
         self._check_invariance()
 
+    def _set_graph_all(self, items: tuple[_core.Value, ...]) -> None:
+        """Set the graph for all items, or for none of them if any item is rejected."""
+        done = 0
+        try:
+            for item in items:
+                self._set_graph(item)
+                done += 1
+        except BaseException:
+            for item in reversed(items[:done]):
+                self._maybe_unset_graph(item)
+            raise
+
     def extend(self, other) -> None:
         """Extend the list of inputs or outputs."""
         other = tuple(other)
-        for item in other:
-            self._set_graph(item)
+        # Perform checks on all items before modifying the data structure
+        self._set_graph_all(other)
         super().extend(other)
 
     def insert(self, i: int, item: _core.Value) -> None:
         """Insert an input/output to the graph."""
-        super().insert(i, item)
+        # Perform checks first in _set_graph before modifying the data structure
         self._set_graph(item)
+        super().insert(i, item)
         self._check_invariance()
 
     def pop(self, i: int = -1) -> _core.Value:
@@ -103,17 +116,28 @@ class _GraphIO(collections.UserList["_core.Value"]):
         """Replace an input/output to the node."""
         if isinstance(item, Iterable) and isinstance(i, slice):
             # Modify a slice of the list
-            for value in self.data[i]:
+            item = tuple(item)
+            old_values = tuple(self.data[i])
+            # Take ownership of the new values first so that nothing is modified
+            # when any of them is rejected
+            self._set_graph_all(item)
+            try:
+                super().__setitem__(i, item)
+            except BaseException:
+                for value in reversed(item):
+                    self._maybe_unset_graph(value)
+                raise
+            for value in old_values:
                 self._maybe_unset_graph(value)
-            for value in item:
-                self._set_graph(value)
-            super().__setitem__(i, item)
             self._check_invariance()
             return
         elif isinstance(i, SupportsIndex):
             # Replace a single item
-            self._maybe_unset_graph(self.data[i])
+            old_value = self.data[i]
+            # Take ownership of the new value first so that nothing is modified
+            # when it is rejected
             self._set_graph(item)
+            self._maybe_unset_graph(old_value)
             super().__setitem__(i, item)
             self._check_invariance()
             return
